@@ -153,7 +153,10 @@ func (P *Program) VerifyFunction(fn *ssa.Function, cfg *RunCfg, opts VerifyOpts)
 			}
 			if strings.HasPrefix(o.CandKey, "frame|") {
 				k := strings.TrimPrefix(o.CandKey, "frame|")
-				if !cfg.fullHavoc[k] {
+				if !cfg.fnHavoc[k] {
+					cfg.fnHavoc[k] = true // second tier first
+					changed = true
+				} else if !cfg.fullHavoc[k] {
 					cfg.fullHavoc[k] = true
 					changed = true
 				}
